@@ -138,6 +138,10 @@ pub struct Args {
     pub cases_override: Option<u64>,
     /// strict: known findings are not tolerated (used to confirm a finding's replay still fails)
     pub strict: bool,
+    /// survey: tolerate every failure, tabulate signatures with one example each (dev aid)
+    pub survey: bool,
+    /// dev aid: only failures whose signature contains this text count; all others are tolerated
+    pub focus: Option<String>,
 }
 
 pub fn stable_hash<T: Hash>(t: &T) -> u64 {
@@ -172,6 +176,8 @@ pub struct ReplayFile<C> {
     pub case: C,
 }
 
+static STOP: std::sync::atomic::AtomicBool = std::sync::atomic::AtomicBool::new(false);
+
 #[derive(Default)]
 struct Stats {
     evaluations: u64,
@@ -184,6 +190,7 @@ struct Stats {
     samples_largest: Option<(usize, String)>,
     samples_hash: Vec<(u64, String)>,
     harness_errors: Vec<String>,
+    survey: BTreeMap<String, (u64, String)>,
 }
 
 impl Stats {
@@ -211,6 +218,10 @@ impl Stats {
         self.samples_hash.dedup();
         self.samples_hash.truncate(3);
         self.harness_errors.extend(o.harness_errors);
+        for (k, (n, ex)) in o.survey {
+            let e = self.survey.entry(k).or_insert((0, ex));
+            e.0 += n;
+        }
     }
 
     fn record<CH: Check>(&mut self, check: &CH, case: &CH::Case, obs: &Obs) {
@@ -447,7 +458,9 @@ pub fn run_check<CH: Check>(check: CH, args: Args) -> i32 {
             Verdict::Pass => {}
             Verdict::Harness(m) => total.harness_errors.push(format!("{}: {}", p.display(), m)),
             Verdict::Fail { sig, detail } => {
-                if kfs.is_open(&sig) {
+                if args.survey {
+                    total.survey.entry(sig).or_insert((0, detail)).0 += 1;
+                } else if kfs.is_open(&sig) {
                     *total.known_hits.entry(sig.clone()).or_default() += 1;
                     known_printed.insert(sig);
                 } else if failure.is_none() {
@@ -469,7 +482,9 @@ pub fn run_check<CH: Check>(check: CH, args: Args) -> i32 {
                 Verdict::Pass => {}
                 Verdict::Harness(m) => total.harness_errors.push(m),
                 Verdict::Fail { sig, detail } => {
-                    if kfs.is_open(&sig) {
+                    if args.survey {
+                        total.survey.entry(sig).or_insert((0, detail)).0 += 1;
+                    } else if kfs.is_open(&sig) {
                         *total.known_hits.entry(sig.clone()).or_default() += 1;
                         known_printed.insert(sig);
                     } else {
@@ -601,6 +616,12 @@ pub fn run_check<CH: Check>(check: CH, args: Args) -> i32 {
         total.known_hits.values().sum::<u64>(),
         wall
     );
+    if args.survey {
+        println!("--- survey: {} distinct failure signatures ---", total.survey.len());
+        for (sig, (n, ex)) in &total.survey {
+            println!("=== {} x{}\n{}\n", sig, n, ex);
+        }
+    }
     if let Some(l) = viol_line {
         println!("{}", l);
         return exit;
@@ -647,6 +668,11 @@ fn worker<CH: Check>(
     let rng = TestRng::from_seed(RngAlgorithm::ChaCha, &derive_seed(args.seed, check.id(), w));
     let mut runner = TestRunner::new_with_rng(config, rng);
     let result = runner.run(&strat, |tape| {
+        // another worker already has a violation: stop generating (a worker that is
+        // shrinking its own failure keeps going)
+        if !failed.get() && STOP.load(std::sync::atomic::Ordering::Relaxed) {
+            return Ok(());
+        }
         let mut t = Tape::new(&tape);
         let case = check.build(&mut t, &cfg);
         let (v, obs) = run_one(&*check, &case, &mut child.borrow_mut(), &args);
@@ -661,14 +687,20 @@ fn worker<CH: Check>(
                 }
                 Ok(())
             }
-            Verdict::Fail { sig, .. } => {
-                if kfs.is_open(&sig) {
+            Verdict::Fail { sig, detail } => {
+                if args.survey {
+                    let mut st = stats.borrow_mut();
+                    let e = st.survey.entry(sig).or_insert_with(|| (0, format!("{}\n--- case ---\n{}", truncate(&detail, 1500), truncate(&check.render(&case), 1500))));
+                    e.0 += 1;
+                    Ok(())
+                } else if kfs.is_open(&sig) || args.focus.as_ref().map(|f| !sig.contains(f.as_str())).unwrap_or(false) {
                     if !failed.get() {
                         *stats.borrow_mut().known_hits.entry(sig).or_default() += 1;
                     }
                     Ok(())
                 } else {
                     failed.set(true);
+                    STOP.store(true, std::sync::atomic::Ordering::Relaxed);
                     Err(TestCaseError::fail(sig))
                 }
             }
@@ -718,6 +750,8 @@ pub fn parse_args(argv: &[String]) -> Result<Args, String> {
     let mut replay = None;
     let mut cases_override = None;
     let mut strict = false;
+    let mut survey = false;
+    let mut focus = None;
     let mut i = 1;
     while i < argv.len() {
         match argv[i].as_str() {
@@ -732,13 +766,18 @@ pub fn parse_args(argv: &[String]) -> Result<Args, String> {
                 cases_override = Some(argv.get(i).ok_or("--cases needs N")?.parse::<u64>().map_err(|e| e.to_string())?);
             }
             "--strict" => strict = true,
+            "--survey" => survey = true,
+            "--focus" => {
+                i += 1;
+                focus = Some(argv.get(i).ok_or("--focus needs text")?.clone());
+            }
             other => return Err(format!("unknown argument {}", other)),
         }
         i += 1;
     }
     let seed = std::env::var("VERIF_SEED").ok().and_then(|s| s.trim().parse::<i64>().ok()).map(|v| v as u64).unwrap_or(1);
     let root = std::env::var("VERIF_ROOT").map(PathBuf::from).unwrap_or_else(|_| PathBuf::from("/verif"));
-    Ok(Args { id, tier, seed, replay, root, cases_override, strict })
+    Ok(Args { id, tier, seed, replay, root, cases_override, strict, survey, focus })
 }
 
 pub use kf::KnownFindings as Kf;
